@@ -137,6 +137,12 @@ def judge_member(res, bad, value, t, where, node, collided, stats):
 
 def judge_c06(res6, text, db, k, wit, cross=None):
     se = StubEval(text)
+    if "DUMMY_NAME" in text:
+        # an anonymous TypedDict that reached the stub without a class of its own (nothing rendered it): a TypedDict all the same
+        sfx0 = ":store-written-under-larger-limit" if cross else ""
+        res6.violation(("typeddict-in-stub-with-limit-zero" if k == 0 else "unrendered-typeddict-in-stub") + sfx0,
+                       f"the stub (limit {k}) refers to an anonymous TypedDict: " + next(ln.strip() for ln in text.splitlines() if "DUMMY_NAME" in ln and "import" not in ln)[:200]
+                       if any("DUMMY_NAME" in ln and "import" not in ln for ln in text.splitlines()) else f"the stub (limit {k}) imports DUMMY_NAME", wit)
     collided = {loc.split()[-1] for kind, _d, loc in se.events if kind == "typeddict-class-name-collision"}
     for name, n in (se.typeddict_classes() if not se.syntax_error else []):
         if any(name.split("#")[0].startswith(c) or c.startswith(name.split("#")[0]) for c in collided):
@@ -349,6 +355,14 @@ def merged_list(rows0):
     return [dict(r) for r in rows0]
 
 
+def in_stdlib_containers(s0):
+    return s0
+
+
+def in_defaultdict(d0):
+    return d0
+
+
 def returns_big(n1):
     return {'r%d' % i: i for i in range(n1)}
 
@@ -367,6 +381,8 @@ C06_SHAPES_PLAN = (
     + [_call("shared_a", ["{'sa': 1, 'sb': 2}"]), _call("shared_b", ["{'sc': 1, 'sd': 2}"]), _call("shared_a", ["{'sa': 1, 'sb': 2}"]), _call("shared_b", ["{'sc': 1, 'se': 's'}"])]
     + [_call("in_containers", [v]) for v in ("[{'ca': 1, 'cb': 2, 'cc': 3}]", "({'ca': 1, 'cb': 2, 'cc': 3}, 1)", "{1: {'ca': 1, 'cb': 2, 'cc': 3}}",
                                              "defaultdict(dict, {'k': {'ca': 1, 'cb': 2, 'cc': 3}})", "[({'ca': 1, 'cb': 2, 'cc': 3},)]", "{'w': [{'ca': 1, 'cb': 2, 'cc': 3}]}")]
+    + [_call("in_stdlib_containers", [v]) for v in ("OrderedDict(k={'oa': 1, 'ob': 2, 'oc': 3})", "deque([{'oa': 1, 'ob': 2, 'oc': 3}])", "OrderedDict(k=[{'oa': 1}])")]
+    + [_call("in_defaultdict", [v]) for v in ("defaultdict(dict, {'k': {'da': 1, 'db': 2, 'dc': 3}})", "defaultdict(dict, {'j': {'da': 1, 'db': 2, 'dc': 3}})")]
     + [_call("merged_list", [v]) for v in ("[{'ma': 1}, {'mb': 2}]", "[{'mc': 3}]", "[{'ma': 1, 'md': 4}, {'me': 5}]", "[]")]
     + [_call("returns_big", [str(n)]) for n in (0, 1, 2, 3, 4, 10, 11)]
     + [_call("optional_field", ["[{'id': 1}, {'id': 2, 'extra': {'ea': 1, 'eb': 2, 'ec': 3}}]"])]
@@ -375,7 +391,7 @@ C06_SHAPES_PLAN = (
 C06_PINNED = [{"name": "vfm06_shapes", "seed": "c06shapes", "stratum": "main", "ks": KS, "rewriters": ["NoOpRewriter", "DEFAULT"], "flags": ["default", "norewrite"],
                "cross_k": {"10": [0, 1, 2, 3], "3": [0, 1, 2], "2": [0, 1]},
                "literal": {"source": C06_SHAPES_SOURCE, "funcs": [[q, "gen" if q == "gen_rows" else "plain"] for q in
-                                                                  ("gen_rows", "nested", "shared_a", "shared_b", "in_containers", "merged_list", "returns_big", "mixed_keys", "optional_field")],
+                                                                  ("gen_rows", "nested", "shared_a", "shared_b", "in_containers", "in_stdlib_containers", "in_defaultdict", "merged_list", "returns_big", "mixed_keys", "optional_field")],
                            "plan": C06_SHAPES_PLAN}}]
 
 
